@@ -1,13 +1,14 @@
 CHECK = {
     "level": "model_checking",
     "technique": "bounded-exhaustive exploration of register_block_write over a small-scope table family x valid storage images x one earlier operation from a per-table history alphabet (incl. one-fault environment operations) x every (address,length) window x boundary word patterns, against a flat address-space reference model",
-    "rule": "a case is (table, storage image, earlier operation or none, window): every pattern of the window is written to the real table and compared with the flat model evaluated on the storage as the earlier operation left it; without an earlier operation the storage is restored between writes, with one the table object is put back to its post-initialisation image, the storage image re-established and the earlier operation repeated before every write; every case is non-trivial (at least the empty or one real write is decided)",
+    "rule": "a case is (table, storage image, earlier operation or none, window): every pattern of the window is written to the real table and compared with the flat model evaluated on the storage as the earlier operation left it; without an earlier operation the storage is restored between writes, with one the table object is put back to its post-initialisation image, the storage image re-established and the earlier operation repeated before every write; every case on a table that register_init accepted is non-trivial (at least the empty or one real write is decided)",
     "assumptions": ["tables from the small-scope family of harness/regfam.h (<= 3 areas, <= 5 registers, addresses 0..9) plus the harness's own extension: s32/s64/f64 registers (singles at every placement x every constraint kind, adjacent pairs) in a one-area and a 4+4 two-area layout, areas carrying REG_AF_SKIP_DEFAULTS besides RW / WO",
                     "word patterns: 7 symbols all-equal, current content with one word replaced, current content with one register's overlapped part replaced by each boundary/undecodable value",
                     "storage images are set out of band to valid register contents (default / bounds / a distinct pattern), i.e. states reachable by accepted writes",
                     "earlier operations: sanitise (clean storage; one register corrupted out of band), refused / accepted typed set, refused block writes (hole; violating value), accepted block write, bit operations, block read + get, re-initialisation; on callback-backed areas also sanitise / typed set / block write with one read or write callback answering IO_ERROR.  Their own results are not judged (outside the statement); the block write after them is",
                     "no area callback fails during the block write under test (the statement does not say what an I/O error of the backing store yields)",
-                    "where several failure classes apply the oracle accepts any of them with that class's first address (statement leaves the precedence open)"],
+                    "where several failure classes apply the oracle accepts any of them with that class's first address (statement leaves the precedence open); an infinite or subnormal float overlay that also lies outside the register's constraint is in both classes 'invalid' and 'out-of-range' (NaN: 'invalid' only)",
+                    "a table that register_init refuses ends its cases as trivial ones (outcome init-refused, not required): whether a description is accepted is C04's sentence; 'initialised' is observed through the block write's own result only, not through RegisterTable.flags"],
     "harnesses": [{
         "name": "c02_blockwrite", "src": "harness/c02_blockwrite.c", "shape": "espace", "opt": "-O2",
         "lib": ["src/registers/core.c"], "min_outcomes": 7,
